@@ -43,8 +43,9 @@ def sha(p):
     return hashlib.sha256(re.sub(rb'"extract_ms":\s*\d+', b"", open(p, "rb").read())).hexdigest()
 
 
-def build(only=None):
+def build(only=None, resume=False):
     os.makedirs(ROOT, exist_ok=True)
+    head_t = int(subprocess.run(["git", "-C", extract.REPO, "log", "-1", "--format=%ct"], capture_output=True, text=True).stdout.strip() or 0)
     base_dir, _ = extract.extract("workspace")
     base = os.path.join(ROOT, "facts", "_base")
     shutil.rmtree(base, ignore_errors=True)
@@ -60,6 +61,9 @@ def build(only=None):
             continue
         dst = os.path.join(ROOT, "facts", name.replace("/", "__"))
         t0 = time.time()
+        cj = os.path.join(dst, "CHANGED.json")
+        if resume and os.path.exists(cj) and os.path.getmtime(cj) > max(head_t, os.path.getmtime(patch)):
+            continue        # built after the current HEAD was committed and after the patch was last written
         a = subprocess.run(["git", "apply", "--whitespace=nowarn", patch], cwd=repo, capture_output=True, text=True)
         if a.returncode != 0:
             print("SKIP (does not apply)", name)
@@ -170,8 +174,8 @@ if __name__ == "__main__":
         jobs = int(a[i + 1])
         a = a[:i] + a[i + 2:]
     verbose = "-v" in a
-    a = [x for x in a if x != "-v"]
+    a = [x for x in a if x not in ("-v", "--resume")]
     if cmd == "build":
-        build(only)
+        build(only, "--resume" in sys.argv)
     else:
         sys.exit(1 if run([x.upper() for x in a] or PIDS, only, verbose, jobs) else 0)
